@@ -325,7 +325,14 @@ func validGen(r *rand.Rand, n int, tier string, emit func(Case)) {
 			if np == 0 {
 				continue
 			}
-			emit(Case{"kind": "nf", "w": g.AsText(), "pos": r.Intn(np), "dim": r.Intn(4), "cls": r.Intn(3)})
+			cn := Case{"kind": "nf", "w": g.AsText(), "pos": r.Intn(np), "dim": r.Intn(4), "cls": r.Intn(3)}
+			if r.Intn(2) == 0 { // two ordinates of the same point
+				cn["dim2"], cn["cls2"] = (cn["dim"].(int)+1+r.Intn(3))%4, r.Intn(3)
+				if r.Intn(2) == 0 {
+					cn["dim"], cn["dim2"] = 0, 1 // X and Y
+				}
+			}
+			emit(cn)
 		default:
 			g := l.rawGeom(0)
 			c := Case{"kind": "geom", "w": g.AsText()}
@@ -427,20 +434,32 @@ func validExec(c Case) Event {
 		}
 		_ = target
 		binary.LittleEndian.PutUint64(wkb[idx+8*dim:], nfBits[cls])
+		// optionally a second ordinate of the same control point (two non-finite values that cancel when combined:
+		// +Inf and -Inf, NaN next to Inf)
+		dim2, cls2 := -1, 0
+		if _, ok := c["dim2"]; ok {
+			dim2, cls2 = c.num("dim2"), c.num("cls2")
+			binary.LittleEndian.PutUint64(wkb[idx+8*dim2:], nfBits[cls2])
+		}
 		var g geom.Geometry
 		if g0.IsPoint() || g0.IsMultiPoint() {
 			// the WKB reader treats NaN in a Point as (part of) the empty-point convention: use constructors
 			patch := func(co geom.Coordinates) geom.Coordinates {
-				v := math.Float64frombits(nfBits[cls])
-				switch dim {
-				case 0:
-					co.X = v
-				case 1:
-					co.Y = v
-				case 2:
-					co.Z = v
-				case 3:
-					co.M = v
+				set := func(dim int, v float64) {
+					switch dim {
+					case 0:
+						co.X = v
+					case 1:
+						co.Y = v
+					case 2:
+						co.Z = v
+					case 3:
+						co.M = v
+					}
+				}
+				set(dim, math.Float64frombits(nfBits[cls]))
+				if dim2 >= 0 {
+					set(dim2, math.Float64frombits(nfBits[cls2]))
 				}
 				return co
 			}
@@ -466,7 +485,7 @@ func validExec(c Case) Event {
 		}
 		ev["base"] = g0.Validate() == nil
 		ev["valid"] = g.Validate() == nil
-		ev["xy"] = dim < 2
+		ev["xy"] = dim < 2 || (dim2 >= 0 && dim2 < 2)
 	}
 	return ev
 }
